@@ -240,3 +240,5 @@ def num_i(v): return int(v)
 
 
 def in_old(f, *args): return f(*args)
+
+def concat(*parts): return "".join(parts)
